@@ -107,4 +107,64 @@ theorem invV_step (C : List Feature) (O : Oracle) (c : Conf) (h : InvV c) : InvV
          · exact h3 (by simp_all [liveD]) _ (by simpa using hq))
     | skip
 
+/-! ### a voluntary feature does not end the list -/
+
+/-- the initiator negotiated an entry the list marked voluntary, successfully and without a
+restart -/
+def Ev.isVolStay : Ev → Bool
+  | .neg _ _ false false false r => !r.err && !r.restart
+  | _ => false
+
+def Ev.isNeg : Ev → Bool
+  | .neg _ _ _ _ _ _ => true
+  | _ => false
+
+/-- (trace newest first) the event after such a negotiation is another `Negotiate` call -/
+def StayOK : List Ev → Prop
+  | [] => True
+  | [_] => True
+  | e :: e' :: rest => (e'.isVolStay = true → e.isNeg = true) ∧ StayOK (e' :: rest)
+
+def headStay : List Ev → Bool
+  | e :: _ => e.isVolStay
+  | [] => false
+
+/-- control points from which the next event, if any, is a `Negotiate` call of the same list -/
+def stayPc (c : Conf) : Bool :=
+  match c.pc with
+  | .cloop false => true
+  | .ret m _ => has m bReady
+  | .top => has c.st bReady
+  | .done | .fail _ | .crash | .stuck | .hung _ | .tee => true
+  | _ => false
+
+structure InvY (c : Conf) : Prop where
+  ok : StayOK c.tr
+  stay : headStay c.tr = true → stayPc c = true
+
+theorem stayOK_cons {e : Ev} {tr : List Ev} (h : StayOK tr)
+    (hh : headStay tr = true → e.isNeg = true) : StayOK (e :: tr) := by
+  cases tr with
+  | nil => exact True.intro
+  | cons e' rest => exact ⟨hh, h⟩
+
+theorem invY_step (C : List Feature) (O : Oracle) (c : Conf) (hv : InvV c) (h : InvY c) :
+    InvY (step C O c) := by
+  obtain ⟨ho, hp⟩ := h
+  have hsrv := hv.srv
+  step_all
+  all_goals (constructor <;> (try dsimp only))
+  all_goals first
+    | exact ho
+    | exact hp
+    | (intro h; have hh := hp h; unfold stayPc at hh; rw [‹c.pc = _›] at hh; cases hh; done)
+    | (refine stayOK_cons ho ?_; intro h; have hh := hp h; unfold stayPc at hh; rw [‹c.pc = _›] at hh; cases hh; done)
+    | (refine stayOK_cons ho ?_; intro _; rfl)
+    | (intro h; have hh := hp h; simp_all [stayPc, has_or_right]; done)
+    | (intro h; simp_all [headStay, Ev.isVolStay, stayPc, srvPc]; done)
+    | (intro _; show has bReady bReady = true; decide)
+    | (intro h; cases hreq : ‹Entry›.req <;> cases hs : c.srv <;>
+         simp_all [headStay, Ev.isVolStay, stayPc, srvPc] <;> done)
+    | skip
+
 end XmppModel.Negotiate
